@@ -359,6 +359,12 @@ PURE_EXTERNALS = {
     're.DOTALL': re.DOTALL, 're.MULTILINE': re.MULTILINE, 're.IGNORECASE': re.IGNORECASE,
     're.escape': re.escape,
 }
+# every constant of the string module, every flag of re (long and short names)
+for _n in ('ascii_letters', 'ascii_lowercase', 'ascii_uppercase', 'hexdigits', 'octdigits', 'printable', 'whitespace'):
+    PURE_EXTERNALS['string.' + _n] = getattr(_string_mod, _n)
+for _n in ('VERBOSE', 'X', 'ASCII', 'A', 'S', 'M', 'I', 'UNICODE', 'U', 'NOFLAG'):
+    if hasattr(re, _n):
+        PURE_EXTERNALS['re.' + _n] = int(getattr(re, _n))
 
 STRUCTURAL_EXTERNALS = {'builtins.zip', 'itertools.zip_longest', 'itertools.chain', 'builtins.reversed',
                         'itertools.chain.from_iterable'}
